@@ -2,6 +2,8 @@ package main
 
 import (
 	"fmt"
+	"os"
+	"time"
 	"strings"
 	"sync"
 
@@ -284,7 +286,9 @@ func genIntegration(r *hx.RNG) []string {
 	}
 	ln := span + r.Intn(span)
 	in = append(in, "|", "u:"+hx.HexS(url), fmt.Sprintf("rs:%d", rs), fmt.Sprintf("len:%d", ln),
-		fmt.Sprintf("b:%d", r.Intn(1000000)), "ch:0")
+		fmt.Sprintf("b:%d", r.Intn(1000000)),
+		// framing of the origin's response: Content-Length (mostly), unknown length, ContentLength 0 with a body
+		fmt.Sprintf("ch:%d", []int{0, 0, 0, 2, 3}[r.Intn(5)]))
 	return in
 }
 
@@ -357,22 +361,83 @@ func genKeepAlive(r *hx.RNG) []string {
 	return in
 }
 
-func genRate(r *hx.RNG) []string {
-	bw := r.Range(200, 3000)
-	k := 3 // the bytes need 2 drains: at least one full drain interval
-	n := bw*(k-1) + 1 + r.Intn(bw)
+// genRate: the bandwidth relation {no global, global < local, global = local,
+// global > local} x {one connection, several concurrent connections sharing the
+// shape's global bucket}.  Sizes are chosen so that a case waits for one or two
+// drains of the limiting bucket (1 s ticker).
+func genRate(r *hx.RNG, rel, conc int) []string {
+	local := r.Range(300, 1500)
+	global := 0
+	switch rel {
+	case 1:
+		global = local/3 + r.Intn(local/3)
+	case 2:
+		global = local
+	case 3:
+		global = 2*local + r.Intn(local)
+	}
+	nc := 1
+	if conc > 0 {
+		nc = r.Range(3, 8)
+	}
+	eff := local
+	if global > 0 && global < eff {
+		eff = global
+	}
+	var n int
+	if nc == 1 {
+		k := 1
+		if r.Chance(1, 3) {
+			k = 2 // two drains: at least one full interval, the timing bound bites
+		}
+		n = eff*k + 1 + r.Intn(eff)
+	} else if global > 0 {
+		// together the connections overfill the shared bucket once
+		n = global/nc + 1 + r.Intn(global/nc+1)
+		if n > 2*local {
+			n = 2 * local
+		}
+	} else {
+		n = local + 1 + r.Intn(local)
+	}
 	start := "0-"
 	if r.Chance(1, 2) {
 		start = "1-" // the bandwidth is then set by a ChangeBandwidth action, not when the context is set
 		n++
 	}
-	in := []string{"R", "S:" + hx.HexS(rxA) + ":0", fmt.Sprintf("T:%s:%d", hx.HexS(start), bw), "|",
-		fmt.Sprintf("n:%d", n), fmt.Sprintf("c:%d", r.Range(1, 2))}
-	return in
+	return []string{"R", fmt.Sprintf("S:%s:%d", hx.HexS(rxA), global), fmt.Sprintf("T:%s:%d", hx.HexS(start), local), "|",
+		fmt.Sprintf("n:%d", n), fmt.Sprintf("c:%d", nc)}
+}
+
+// genIntegrationSlow: proxy on a shaped listener, the shape's global bucket is
+// smaller than the throttle the response is in (or there is none): the body has
+// to wait for a drain and must still arrive complete.
+func genIntegrationSlow(r *hx.RNG, rel int) []string {
+	local := r.Range(600, 1200)
+	global := 0
+	switch rel {
+	case 1:
+		global = local/4 + r.Intn(local/4)
+	case 2:
+		global = local
+	case 3:
+		global = 2 * local
+	}
+	eff := local
+	if global > 0 && global < eff {
+		eff = global
+	}
+	ln := eff + 1 + r.Intn(eff/2)
+	url := fmt.Sprintf("http://example/a%d", r.Intn(100))
+	return []string{"I", fmt.Sprintf("S:%s:%d", hx.HexS(rxA), global), fmt.Sprintf("T:%s:%d", hx.HexS("0-"), local), "|",
+		"u:" + hx.HexS(url), "rs:-1", fmt.Sprintf("len:%d", ln), fmt.Sprintf("b:%d", r.Intn(1000000)), "ch:0"}
 }
 
 // slow unit case: a throttle small enough to limit chunks (each limited chunk waits for a drain)
 func genSlowUnit(r *hx.RNG) []string {
+	if r.Chance(1, 2) {
+		return genSlowUnitGlobal(r)
+	}
 	bw := r.Range(50, 400)
 	st := r.Intn(100)
 	in := []string{"U", "S:" + hx.HexS(rxA) + ":0",
@@ -385,11 +450,24 @@ func genSlowUnit(r *hx.RNG) []string {
 	return in
 }
 
+// slow unit case with the shape's global bucket smaller than the throttle: the
+// chunks are limited by the global grant
+func genSlowUnitGlobal(r *hx.RNG) []string {
+	bw := r.Range(200, 600)
+	g := bw/3 + r.Intn(bw/3)
+	in := []string{"U", fmt.Sprintf("S:%s:%d", hx.HexS(rxA), g), fmt.Sprintf("T:%s:%d", hx.HexS("0-"), bw),
+		fmt.Sprintf("H:%d:2:1", r.Intn(g)), "|", "a0", fmt.Sprintf("o0:0:0:%d", r.Intn(40))}
+	for j := 0; j < 3; j++ {
+		in = append(in, fmt.Sprintf("w0:%s", hx.Hex(r.Bytes(r.Range(g/3, g/2+20)))))
+	}
+	return in
+}
+
 func generate(cfg *hx.Config, emit func(kind string, in []string)) {
 	rng := hx.NewRNG(cfg.Seed)
-	nl, nu, ni, nr, ns := 60, 500, 40, 3, 3
+	nl, nu, ni, nr, ns := 60, 500, 40, 8, 4
 	if cfg.Thorough() {
-		nl, nu, ni, nr, ns = 600, 8000, 500, 16, 16
+		nl, nu, ni, nr, ns = 600, 8000, 500, 32, 16
 	}
 	// 1. handler / listener histories (sequential: goroutines are counted)
 	for k := 0; k < nl; k++ {
@@ -427,7 +505,17 @@ func generate(cfg *hx.Config, emit func(kind string, in []string)) {
 	// 4. cases that wait for bucket drains (1 s ticker): run 4 at a time
 	var slow [][]string
 	for k := 0; k < nr; k++ {
-		slow = append(slow, genRate(rng.Fork()))
+		// every bandwidth relation with one connection, then with several
+		in := genRate(rng.Fork(), k%4, (k/4)%2)
+		cfg.Count(fmt.Sprintf("rate-rel%d-conc%d", k%4, (k/4)%2))
+		slow = append(slow, in)
+	}
+	nis := 2
+	if cfg.Thorough() {
+		nis = 12
+	}
+	for k := 0; k < nis; k++ {
+		slow = append(slow, genIntegrationSlow(rng.Fork(), []int{1, 0, 2, 3}[k%4]))
 	}
 	for k := 0; k < ns; k++ {
 		slow = append(slow, genSlowUnit(rng.Fork()))
@@ -440,7 +528,11 @@ func generate(cfg *hx.Config, emit func(kind string, in []string)) {
 		go func(i int) {
 			defer wg.Done()
 			sem <- struct{}{}
+			t0 := time.Now()
 			outs[i] = runCase(slow[i])
+			if os.Getenv("VERIF_C18_TRACE") != "" {
+				fmt.Fprintf(os.Stderr, "slow%d took %s: %s\n", i, time.Since(t0), strings.Join(slow[i][:6], " "))
+			}
 			<-sem
 		}(i)
 	}
